@@ -141,9 +141,9 @@ func vNondetSeqDoc(s vSeqSpec, depth int) (doc string, mixed bool) {
 		if extra > 0 && i == pos {
 			switch extra {
 			case 1:
-				doc += "<!--c-->"
+				doc += "<!--" + []string{"c", "a> <b", "x>\n<y"}[vChoose(3)] + "-->"
 			case 2:
-				doc += "<?pi x?>"
+				doc += "<?pi " + []string{"x", "a> <b"}[vChoose(2)] + "?>"
 			default:
 				doc += "<!D d>"
 			}
